@@ -396,6 +396,38 @@ Proof.
     apply apply_groups_slots. intros f v Hin. apply (Habs f v Hin).
 Qed.
 
+(* the same groups are STRICT (decodable whatever follows) when every present slot is: the case of layouts without a repeated
+   tagged field, for which a duplicated group is always rejected (C13) *)
+Lemma slots_groups_strict D (ps : list (field * value * bytes)) (ts : list tslot) :
+  let pfs := map (fun x => fst (fst x)) ps in
+  let tfs := map (fun s : tslot => fst (fst s)) ts in
+  forallb untagged_field pfs = true -> NoDup (tags_of tfs) ->
+  (forall k f v g, nth_error ts k = Some (f, v, Some g) ->
+     exists nm t ls e ty, f = Fld nm (Some t) ls e ty /\
+       (forall r, exists rest, tag_dec false (g ++ r) = Ok (t, rest)) /\
+       (forall r, D ls e ty (Some t) (g ++ r) = Ok (v, r))) ->
+  Forall (group_strict D (pfs ++ tfs)) (groups_from (length pfs) ts).
+Proof.
+  intros pfs tfs Hp Hnd Hpres.
+  assert (G : forall ts' k0, (forall k f v g, nth_error ts' k = Some (f, v, Some g) -> nth_error ts (k0 + k) = Some (f, v, Some g)) ->
+            Forall (group_strict D (pfs ++ tfs)) (groups_from (length pfs + k0) ts')).
+  { induction ts' as [|[[f v] [g|]] ts' IH]; intros k0 Hsub; [constructor| |].
+    - cbn [groups_from]. constructor.
+      + pose proof (Hsub 0%nat f v g eq_refl) as Hn. rewrite Nat.add_0_r in Hn.
+        destruct (Hpres k0 f v g Hn) as [nm [t [ls [e [ty [-> [Htag Hdec]]]]]]].
+        exists nm, ls, e, ty. cbn [g_tag g_idx g_val g_bytes f_tag]. split; [|split; assumption].
+        rewrite (find_tagged_skip pfs Hp).
+        rewrite (find_tagged_unique tfs Hnd k0 (Fld nm (Some t) ls e ty) t (0 + length pfs)%nat).
+        * replace (0 + length pfs + k0)%nat with (length pfs + k0)%nat by lia. reflexivity.
+        * unfold tfs. rewrite nth_error_map, Hn. reflexivity.
+        * reflexivity.
+      + replace (S (length pfs + k0)) with (length pfs + S k0)%nat by lia. apply IH.
+        intros k f' v' g' H. replace (S k0 + k)%nat with (k0 + S k)%nat by lia. apply (Hsub (S k)). exact H.
+    - cbn [groups_from]. replace (S (length pfs + k0)) with (length pfs + S k0)%nat by lia. apply IH.
+      intros k f' v' g' H. replace (S k0 + k)%nat with (k0 + S k)%nat by lia. apply (Hsub (S k)). exact H. }
+  specialize (G ts 0%nat (fun k f v g H => H)). rewrite Nat.add_0_r in G. exact G.
+Qed.
+
 (* THE struct lemma in declaration order: positional triples, then tagged slots (present or absent) *)
 Theorem dec_struct_slots D (ps : list (field * value * bytes)) (ts : list tslot) (tail : bytes) :
   let pfs := map (fun x => fst (fst x)) ps in
